@@ -218,6 +218,13 @@ var tplRoots = []tplRoot{
 	{fn: "compileTermSuffix", entry: 1, end: 1, inputs: optIndexInputs, pred: optIndexPred, name: "compileTermSuffix/optional-index"},
 }
 
+func init() {
+	// the argument loop of native calls on its own (distinct opaque arguments, indexing 0 and 1): explored exhaustively
+	// for one and two arguments, where the roots that inline it stop at their variant limit (R-C19-argvalues reads the
+	// same templates)
+	tplRoots = append(tplRoots, cciRoot)
+}
+
 // tplRootInline: sub-compilations additionally executed (not left as holes) for the roots that are given concrete patterns,
 // so that the stores of the pattern variables are visible to the definite-assignment analysis.
 var tplRootInline = map[string][]string{"compileBind": {"compilePattern"}, "compilePattern": {"compilePattern"}}
